@@ -35,6 +35,14 @@ class ModbusSim(PeerBase):
         if f == "garbage":
             self.send(s, bytes((11 * i + n) & 0xFF for i in range(17)), 0, n)
             return True
+        if f[0] == "junk":          # a datagram / segment of exactly f[1] bytes, starting like a real header
+            head = (b"\xaa\x55\x7f\xc0\x01\x86\x20" if frame[0:2] == b"\xaa\x55" and kind != "tcp" and len(frame) > 8 and frame[4] in (1, 2, 3)
+                    else b"\xaa\x55\xf7\x03\x04\x00\x01")
+            if kind == "tcp":
+                head = frame[0:7] + b"\x03\x04"
+            if f[1] or kind != "tcp":
+                self.send(s, (head + bytes(32))[:f[1]], 0, n)
+            return True
         if f == "eof":
             if kind == "tcp":
                 self.close_conn(s, 0, n)
